@@ -55,7 +55,6 @@ class Run:
         self.ctx = E.Ctx(self.torch)
         self.CB = self.ctx.CB
         self.cases = []          # (label, coq bool expr)
-        self.pending = {}        # label -> deferred known-finding record (decided after the Coq cases ran)
         self.inputs = {}         # label -> input (for the broken-obligation detail)
         self.dist = {}
         self.goals = []          # interval goals (Eve)
@@ -64,9 +63,9 @@ class Run:
         self.dist[k] = self.dist.get(k, 0) + n
 
     # ---- one fit-sequence scenario: real vs documented behaviour, plus the Coq case
-    def fitseq(self, name, table, calls, st, sv, valid_on=True, ops_rng=None, with_coq=True, known=None):
-        """known: None or (key, what, predicate(diff) -> bool): a disagreement with the documentation that
-        is a recorded finding PROVIDED the faithful Coq model reproduces the implementation."""
+    def fitseq(self, name, table, calls, st, sv, valid_on=True, ops_rng=None, with_coq=True, regress_key=None):
+        """regress_key: the scenario replays a repaired (status "fixed") finding; a disagreement about the
+        firing epochs is reported under that key (a fixed entry suppresses nothing: it is a VIOLATION)."""
         ck = self.ck
         real, gfinal, err = E.run_real(self.ctx, table, calls, st, sv, valid_on, ops_rng)
         exp, gexp = E.doc_sim(table, calls, st, sv, valid_on)
@@ -91,15 +90,9 @@ class Run:
         ci, ei, field, r, e = d
         key, what = self.classify(table, field, r, e)
         what = f'{what} (fit call {ci + 1}, epoch index {ei}: observed {r}, documented {e})'
-        if known is not None and known[2](d):
-            rec = {'key': known[0], 'what': known[1] + ': ' + what, 'what_plain': what, 'input': inp, 'expected': jsonable(exp),
-                   'actual': jsonable(real), 'fallback_key': key + '/differs-from-model'}
-            if with_coq:
-                self.pending[label] = rec
-            else:
-                ck.fail(rec['key'], rec['what'], inp, expected=rec['expected'], actual=rec['actual'])
-        else:
-            ck.fail(key, what, inp, expected=jsonable(exp), actual=jsonable(real))
+        if regress_key is not None and field == 'fired' and key.startswith('fires/RepeatedMetric'):
+            key, what = regress_key, 'a repaired defect is back: ' + what
+        ck.fail(key, what, inp, expected=jsonable(exp), actual=jsonable(real))
         return real
 
     def classify(self, table, field, r, e):
@@ -130,18 +123,9 @@ class Run:
         ck = self.ck
         bad = set(ck.step_cases('corr', E.PREAMBLE, self.cases)) if self.cases else set()
         for label in sorted(bad):
-            if label in self.pending:
-                continue
             ck.broke('correspondence-broken', f'cases:corr:{label}',
                      f'coq/model/Callbacks.v and the implementation disagree on {json.dumps(self.inputs.get(label), default=str)[:1500]}')
-        for label, rec in self.pending.items():
-            if label in bad:
-                # the implementation is not even what the faithful model says: not the recorded finding
-                ck.broke('correspondence-broken', f'cases:corr:{label}', 'implementation differs from the faithful model in a known-finding scenario')
-                ck.fail(rec['fallback_key'], rec.get('what_plain', rec['what']), rec['input'], expected=rec['expected'], actual=rec['actual'])
-            else:
-                ck.fail(rec['key'], rec['what'], rec['input'], expected=rec['expected'], actual=rec['actual'])
-        self.cases, self.pending = [], {}
+        self.cases = []
 
 
 # ============================================================================ scenario generators
@@ -304,7 +288,7 @@ def actions_mass(run, r, n_runs, coq=True):
     run.fitseq('actions-fixed', table, calls, st, sv, True, None, with_coq=coq)
 
 
-def rep_leaf(r, dist, kinds=('Up', 'Down', 'Converge', 'Diverge')):
+def rep_leaf(r, dist, kinds=('Up', 'Down', 'Converge', 'Diverge', 'Up', 'Down', 'Below', 'Above')):
     kind = r.choice(kinds)
     arg = r.choice([0, 0, 1, 1, 2, -1]) if kind in ('Up', 'Down') else r.choice([1, 2, 2, 3, -2, 0])
     if kind in ('Below', 'Above'):
@@ -313,118 +297,67 @@ def rep_leaf(r, dist, kinds=('Up', 'Down', 'Converge', 'Diverge')):
     return ('Rep', kind, arg, r.random() < 0.7, r.choice([0, 1, 1, 2, 2, 3, 4]))
 
 
-def always_eval_tree(r, dist):
-    """Expression in which every repeated-metric leaf is evaluated at every call."""
-    shape = r.choice(['leaf', 'leaf', 'leaf', 'not', 'xor', 'and1', 'or1', 'nested'])
-    leaf = lambda: rep_leaf(r, dist)
-    sl = lambda: T.gen_tree(r, r.choice([0, 0, 1]), dist)
-    if shape == 'leaf':
-        return leaf()
-    if shape == 'not':
-        return ('Not', leaf())
-    if shape == 'xor':
-        kids = [leaf(), sl(), leaf()][:r.randint(2, 3)]
-        r.shuffle(kids)
-        return ('Xor', kids)
-    if shape == 'and1':
-        return ('And', [leaf()] + [sl() for _ in range(r.randint(0, 2))])
-    if shape == 'or1':
-        return ('Or', [leaf()] + [sl() for _ in range(r.randint(0, 2))])
-    return ('Xor', [('Not', ('And', [leaf(), sl()])), ('Or', [('Xor', [leaf(), leaf()]), sl()])])
+def mixed_leaf(r, dist):
+    return rep_leaf(r, dist) if r.random() < 0.45 else T.gen_leaf(r, dist)
 
 
 def repeated_mass(run, r, n_runs, coq=True):
-    """Scripted integer loss histories (ties frequent), callbacks created before the first epoch and
-    passed to every fit(): firing epochs vs the so_far model in Coq vs the history predicate."""
+    """Scripted integer loss histories (ties frequent); expression trees up to depth 3 with repeated-metric
+    leaves ANYWHERE (also behind short-circuiting operands), callbacks passed to arbitrary subsets of the
+    fit() calls (late attachment, gaps): firing epochs vs the Coq model vs the documented history predicate."""
     ck = run.ck
     for ri in range(n_runs):
-        table = [{'tree': always_eval_tree(r, run.dist), 'act': ('rec',)} for _ in range(r.randint(6, 12))]
-        # Below / Above as whole callbacks; their first-history-entry deviation is excluded here by making
-        # the history long enough before they can fire (repetition >= 1 needs len >= n + 1): see below_above()
+        table = []
+        for ti in range(r.randint(6, 12)):
+            d = [0, 0, 1, 1, 2, 2, 3][ti % 7]
+            t = T.gen_tree(r, d, run.dist, leaf=mixed_leaf)
+            if T.is_stateless(t):
+                t = rep_leaf(r, run.dist) if d == 0 else ('Or', [T.gen_tree(r, d - 1, run.dist), rep_leaf(r, run.dist)])
+            run.count(f'rep_depth{T.depth_of(t)}')
+            table.append({'tree': t, 'act': ('rec',)})
         if ri % 3 == 0:
-            table.append({'tree': ('And', [('Rep', 'Down', 1, True, 2), ('IL', 2, None)]), 'act': ('stop',)})
+            table.append({'tree': ('And', [('IL', 2, None), ('Rep', 'Down', 1, True, 2)]), 'act': ('stop',)})
             run.count('repeated_runs_with_stop')
-        calls = gen_calls(r, len(table))
+        calls = gen_calls(r, len(table), late=(ri % 2 == 0))
+        if ri % 2 == 0:
+            calls[0] = (calls[0][0], [r.random() < 0.5 for _ in table])     # many callbacks are attached late
         st, sv = scripts(r, calls, 0, r.choice([2, 3, 5]))
         real = run.fitseq('repeated', table, calls, st, sv, valid_on=(ri % 5 != 4), ops_rng=None, with_coq=coq)
         if real is not None and ri < 2:
             ck.sample({'kind': 'repeated-metric callbacks under fit()', 'callbacks': [T.show(e['tree']) for e in table[:5]],
-                       'calls': [mx for mx, _ in calls], 'train_losses': st[:12], 'observed_first_call': real[0][:3] if real else []})
+                       'calls': [[mx, mask[:5]] for mx, mask in calls], 'train_losses': st[:12], 'observed_first_call': real[0][:3] if real else []})
 
 
-def known_repeated(run, r, n_random):
-    """The recorded deviations of the repeated-metric callbacks from their documented history predicate
-    (each accepted as the known finding only if the faithful Coq model reproduces the implementation)."""
-    # ---- late attachment
+REGRESS = {'late-attachment': KNOWN_LATE, 'short-circuit': KNOWN_SC, 'below-above': KNOWN_BA}
+
+
+def regressions_repeated(run, r, n_random):
+    """The scenarios of the repaired findings F10a-c (status fixed): they must now agree with the documented
+    history predicate; a disagreement is reported under the recorded key."""
     table = [{'tree': ('Rep', 'Up', 0, True, 2), 'act': ('rec',)}]
-    calls = [(3, [False]), (2, [True])]
-    late = lambda d: d[2] == 'fired'
-    run.fitseq('late-attachment', table, calls, [1, 2, 3, 4, 5, 6], [0] * 6, True, None,
-               known=(KNOWN_LATE, 'a repeated-metric callback first passed to a later fit() counts calls, not history', late))
+    run.fitseq('late-attachment', table, [(3, [False]), (2, [True])], [1, 2, 3, 4, 5, 6], [0] * 6, True, None, regress_key=KNOWN_LATE)
     for _ in range(n_random):
         table = [{'tree': rep_leaf(r, run.dist), 'act': ('rec',)} for _ in range(4)]
         calls = [(r.randint(1, 4), [False] * 4), (r.randint(2, 5), [True] * 4)]
         st, sv = scripts(r, calls, 0, 3)
-        run.fitseq('late-attachment', table, calls, st, sv, True, None,
-                   known=(KNOWN_LATE, 'a repeated-metric callback first passed to a later fit() counts calls, not history', late))
-    # ---- short circuit
+        run.fitseq('late-attachment', table, calls, st, sv, True, None, regress_key=KNOWN_LATE)
     table = [{'tree': ('Or', [('PL', 4, 0), ('Rep', 'Up', 0, True, 2)]), 'act': ('rec',)}]
-    run.fitseq('short-circuit', table, [(5, [True])], [1, 2, 3, 0, 1, 1], [0] * 6, True, None,
-               known=(KNOWN_SC, 'a repeated-metric callback behind a short-circuiting operand of | / & is not evaluated at every epoch', late))
+    run.fitseq('short-circuit', table, [(5, [True])], [1, 2, 3, 0, 1, 1], [0] * 6, True, None, regress_key=KNOWN_SC)
     for _ in range(n_random):
         first = T.gen_tree(r, r.choice([0, 1]), run.dist)
         table = [{'tree': (r.choice(['And', 'Or']), [first, rep_leaf(r, run.dist)]), 'act': ('rec',)} for _ in range(4)]
         calls = [(r.randint(3, 6), [True] * 4), (r.randint(0, 4), [True] * 4)]
         st, sv = scripts(r, calls, 0, 3)
-        run.fitseq('short-circuit', table, calls, st, sv, True, None,
-                   known=(KNOWN_SC, 'a repeated-metric callback behind a short-circuiting operand of | / & is not evaluated at every epoch', late))
-
-
-def below_above(run, r, n_random):
-    """RepeatedMetricBelow / Above: documented 'below / above the value for the latest n epochs'.  The only
-    accepted deviation: documented True, implementation False, exactly n history entries."""
-    ck = run.ck
-
-    def scenario(tree, calls, st, sv):
-        table = [{'tree': tree, 'act': ('rec',)}]
-        real, gfinal, err = E.run_real(run.ctx, table, calls, st, sv, True, None)
-        exp, _ = E.doc_sim(table, calls, st, sv, True)
-        inp = {'scenario': 'below-above', 'tree': jsonable(tree), 'calls': jsonable(calls), 'train_losses': st, 'valid_losses': sv}
-        ck.add_case(('below-above', json.dumps(jsonable(tree)), tuple(st), tuple(sv), json.dumps(jsonable(calls))))
-        if err is not None:
-            ck.fail(f'fires/{T.class_name(tree)}/raises', f'{T.show(tree)} raised {err}', inp)
-            return
-        label = f'below-above#{len(run.cases)}'
-        run.cases.append((label, E.coq_case(table, calls, st, sv, True, real)))
-        run.inputs[label] = inp
-        n = tree[4]
-        known_dev, other = [], []
-        for ra, ea in zip(real, exp):
-            for rr, ee in zip(ra, ea):
-                ck.traces += 1
-                if rr['fired'] != ee['fired']:
-                    if ee['fired'] == [0] and rr['fired'] == [] and rr['g'] == n and n >= 1:
-                        known_dev.append((rr, ee))
-                    else:
-                        other.append((rr, ee))
-            if len(ra) != len(ea):
-                other.append((len(ra), len(ea)))
-        if other:
-            ck.fail(f'fires/{T.class_name(tree)}', f'{T.show(tree)} deviates from its documented predicate: {other[0]}', inp,
-                    expected=jsonable(exp), actual=jsonable(real))
-        elif known_dev:
-            run.pending[label] = {'key': KNOWN_BA, 'what': f'{T.show(tree)} does not fire at global epoch {n} although the loss was on the required side for all {n} epochs so far',
-                                  'input': inp, 'expected': jsonable(exp), 'actual': jsonable(real), 'fallback_key': f'fires/{T.class_name(tree)}/differs-from-model'}
-
-    scenario(('Rep', 'Below', 1, True, 1), [(5, [True])], [0, 0, 0, 5, 0, 0], [0] * 6)
-    scenario(('Rep', 'Above', 1, False, 2), [(2, [True]), (3, [True])], [0] * 6, [3, 3, 0, 3, 3, 3])
+        run.fitseq('short-circuit', table, calls, st, sv, True, None, regress_key=KNOWN_SC)
+    run.fitseq('below-above', [{'tree': ('Rep', 'Below', 1, True, 1), 'act': ('rec',)}], [(5, [True])], [0, 0, 0, 5, 0, 0], [0] * 6, True, None,
+               regress_key=KNOWN_BA)
+    run.fitseq('below-above', [{'tree': ('Rep', 'Above', 1, False, 2), 'act': ('rec',)}], [(2, [True]), (3, [True])], [0] * 6, [3, 3, 0, 3, 3, 3], True, None,
+               regress_key=KNOWN_BA)
     for _ in range(n_random):
-        kind = r.choice(['Below', 'Above'])
-        tree = ('Rep', kind, r.randint(0, 4), r.random() < 0.6, r.choice([0, 1, 1, 2, 3]))
-        run.count('Rep' + kind)
-        calls = [(mx, [True]) for mx, _ in gen_calls(r, 1)]
+        table = [{'tree': rep_leaf(r, run.dist, ('Below', 'Above')), 'act': ('rec',)} for _ in range(4)]
+        calls = gen_calls(r, 4)
         st, sv = scripts(r, calls, 0, 4)
-        scenario(tree, calls, st, sv)
+        run.fitseq('below-above', table, calls, st, sv, True, None, regress_key=KNOWN_BA)
 
 
 def custom_metric_key(run):
@@ -577,15 +510,16 @@ def optimizer_params(run, r):
         ok_step = all(k == 1 for k in steps)
         label = f'optparams#{len(run.cases)}'
         nets_coq = T.coq_list([T.coq_list([str(i) for i in ids]) for ids in nets_ids])
-        run.cases.append((label, f'if list_eq_dec Z.eq_dec (opt_params {nets_coq}) {T.coq_list([str(i) for i in observed])} then true else false'))
+        run.cases.append((label, f'if list_eq_dec Z.eq_dec (opt_params Z.eq_dec {nets_coq}) {T.coq_list([str(i) for i in observed])} then true else false'))
         run.inputs[label] = inp
         if ok_list and ok_step:
             continue
         what = (f'SetOptimizer(SGD) on nets {name}: optimiser holds {len(observed)} entries for {len(distinct)} distinct parameters '
                 f'(ids {observed}); SGD steps per parameter in one epoch: {steps}')
-        if shares and sorted(observed) == sorted(i for ids in nets_ids for i in ids) and set(observed) == set(range(len(distinct))):
-            run.pending[label] = {'key': KNOWN_F5, 'what': what, 'input': inp, 'expected': {'entries': len(distinct), 'steps': [1] * len(distinct)},
-                                  'actual': {'entries': len(observed), 'steps': steps}, 'fallback_key': 'SetOptimizer/parameter-list/differs-from-model'}
+        if shares and len(observed) != len(set(observed)):
+            # the repaired finding F5 (status fixed) is back
+            ck.fail(KNOWN_F5, 'a repaired defect is back: ' + what, inp, expected={'entries': len(distinct), 'steps': [1] * len(distinct)},
+                    actual={'entries': len(observed), 'steps': steps})
         else:
             ck.fail('SetOptimizer/parameter-list', what, inp, expected={'entries': len(distinct)}, actual={'entries': len(observed), 'steps': steps})
 
@@ -708,9 +642,7 @@ def replay(ck, run, path):
     table = [{'tree': tree_from_json(e['tree']), 'act': tuple(e['act'])} for e in inp['table']]
     calls = [(mx, list(mask)) for mx, mask in inp['calls']]
     name = inp.get('name', 'replay')
-    known = {'late-attachment': (KNOWN_LATE, 'a repeated-metric callback first passed to a later fit() counts calls, not history', lambda d: d[2] == 'fired'),
-             'short-circuit': (KNOWN_SC, 'a repeated-metric callback behind a short-circuiting operand of | / & is not evaluated at every epoch', lambda d: d[2] == 'fired')}.get(name)
-    run.fitseq(name, table, calls, inp['train_losses'], inp['valid_losses'], inp['valid_on'], None, with_coq=True, known=known)
+    run.fitseq(name, table, calls, inp['train_losses'], inp['valid_losses'], inp['valid_on'], None, with_coq=True, regress_key=REGRESS.get(name))
     run.settle()
     return True
 
@@ -722,7 +654,7 @@ def main():
                'offsets -9..14, closed intervals incl. None bounds, first/last, each with a recording / Stop / SetLossFn / SetOptimizer action) '
                'x (sequence of 1..4 real fit() calls, max_epochs 0..6, optional per-call attachment masks) x scripted integer loss histories; '
                'plus every depth<=2 expression over three atoms on a fit sequence realising all 8 assignments, stub grids of (local, global, max), '
-               'EveCallback values v_0 * p^(j + frac), repeated-metric callbacks on scripted histories with ties, monitor callbacks, shared-parameter nets. '
+               'EveCallback values v_0 * p^(j + frac), expression trees with repeated-metric leaves anywhere (also behind short-circuiting operands, attached late or with gaps) on scripted histories with ties, monitor callbacks, shared-parameter nets. '
                'distinct = distinct (scenario, callback table, calls, histories); non-trivial = at least one epoch ran')
     ck.step_hygiene()
     if ck.step_prove('P_C16'):
@@ -752,15 +684,14 @@ def main():
     timed('optimizer_params', optimizer_params, run, ck.rng('opt'))
     timed('eve', eve, run, ck.rng('eve'), 800 if th else 80, 24 if th else 6)
     timed('repeated', repeated_mass, run, ck.rng('repeated'), 500 if th else 60)
-    timed('known_repeated', known_repeated, run, ck.rng('known'), 60 if th else 8)
-    timed('below_above', below_above, run, ck.rng('ba'), 200 if th else 24)
+    timed('regressions_repeated', regressions_repeated, run, ck.rng('known'), 60 if th else 8)
     timed('custom_metric', custom_metric_key, run)
     timed('misc', misc, run)
     timed('coq_cases', run.settle)
     timed('interval_goals', ck.step_interval_goals, 'eve', run.goals)
     ck.extra['stage_s'] = stage
 
-    known_keys = {KNOWN_F5, KNOWN_LATE, KNOWN_SC, KNOWN_BA, KNOWN_KEY}
+    known_keys = {KNOWN_KEY}
     if ck.broken and not [f for f in ck.failures if f['key'] not in known_keys]:
         # search: a broken obligation without a failing input so far -> widen the oracle run (implementation vs
         # documented behaviour only, no Coq), on fresh random inputs of every scenario family
@@ -768,22 +699,21 @@ def main():
         stateless_mass(run, ck.rng('search', 'stateless'), 80, 40, coq=False)
         actions_mass(run, ck.rng('search', 'actions'), 150, coq=False)
         repeated_mass(run, ck.rng('search', 'repeated'), 150, coq=False)
-        run.cases, run.pending = [], {}
+        run.cases = []
         stub_grid(run, ck.rng('search', 'stub'), 600)
         eve(run, ck.rng('search', 'eve'), 400, 0)
-        run.cases, run.pending = [], {}
+        run.cases = []
 
     ck.extra['input_distribution'] = dict(sorted(run.dist.items()))
-    ck.extra['known_finding_keys'] = [KNOWN_F5, KNOWN_LATE, KNOWN_SC, KNOWN_BA, KNOWN_KEY]
+    ck.extra['known_finding_keys'] = {'open': [KNOWN_KEY], 'fixed (replayed, must pass)': [KNOWN_F5, KNOWN_LATE, KNOWN_SC, KNOWN_BA]}
     ck.finish(
         trusted_extra=['Flocq (Zfloor / Ztrunc) and the Coq Reals library for C16_eve_spec; Interval tactic for the in-kernel log goals',
                        'tools/harness/cb_trees.py, cb_engine.py: tree -> real object / Coq term / documented predicate; real fit() driver',
                        'modelled not verified: float64 log / division / + EPS in EveCallback (taken as real operations); IEEE comparisons of the '
                        'scripted integer-valued metric values (exact); torch optimiser step rule; tqdm_file=None path of fit()'],
         assumptions=['n_batches_train >= 1 (global epoch grows by one per epoch); period <> 0; Eve: v, v_0 > 0, p > 0, p <> 1, fractional part of log_p(v/v_0) below 1 - 1e-4',
-                     'repeated-metric theorems: callback created before the first epoch and evaluated exactly once per epoch (C16_repeated_spec, C16_repeated_tree_spec); '
-                     'the deviations outside this hypothesis are recorded findings',
-                     'optimizer_params_nodup holds only for nets that do not share parameters (C16_optimizer_params_nodup_partial); recorded finding otherwise'])
+                     'repeated-metric callbacks read the train / valid LOSS history (the custom-metric key is an open recorded finding: KeyError)',
+                     'OrderedSet is modelled as order-preserving de-duplication keeping the first occurrence (dedup); parameter identity = Python object identity'])
 
 
 if __name__ == '__main__':
